@@ -3,6 +3,8 @@
 package main
 
 import (
+	"bytes"
+	"encoding/gob"
 	"encoding/json"
 	"flag"
 	"fmt"
@@ -433,6 +435,46 @@ func codecs(seed uint64, pairs int, cnt map[string]int64) []string {
 			}
 			if err != nil || got.In.E != e || got.Ptr == nil || *got.Ptr != e || len(got.L) != 2 || got.L[1] != e || got.A[1] != e || got.M["a"] != e {
 				msgs = append(msgs, fmt.Sprintf("encoding/json round trip of (%d,%d) inside a nested struct (pass %d) fails: %s, err %v", id, gen, pass, b, err))
+			}
+		}
+		// binary encoding through encoding/gob, which uses MarshalBinary / UnmarshalBinary: handles held by value
+		// (the documented way of storing them) must be encodable too
+		gobShapes := []struct {
+			name string
+			enc  any
+			dec  func(*gob.Decoder) (ecs.Entity, error)
+		}{
+			{"Entity value", e, func(d *gob.Decoder) (x ecs.Entity, err error) { err = d.Decode(&x); return }},
+			{"*Entity", &e, func(d *gob.Decoder) (x ecs.Entity, err error) { err = d.Decode(&x); return }},
+			{"struct value", wrap{e}, func(d *gob.Decoder) (ecs.Entity, error) {
+				var x wrap
+				err := d.Decode(&x)
+				return x.E, err
+			}},
+			{"map[string]Entity", map[string]ecs.Entity{"k": e}, func(d *gob.Decoder) (ecs.Entity, error) {
+				var x map[string]ecs.Entity
+				err := d.Decode(&x)
+				return x["k"], err
+			}},
+			{"[]Entity", []ecs.Entity{e}, func(d *gob.Decoder) (ecs.Entity, error) {
+				var x []ecs.Entity
+				err := d.Decode(&x)
+				if err != nil || len(x) != 1 {
+					return ecs.Entity{}, fmt.Errorf("%v len %d", err, len(x))
+				}
+				return x[0], nil
+			}},
+		}
+		for _, sh := range gobShapes {
+			cnt["gob-shapes"]++
+			var buf bytes.Buffer
+			if err := gob.NewEncoder(&buf).Encode(sh.enc); err != nil {
+				msgs = append(msgs, fmt.Sprintf("encoding/gob of (%d,%d) as %s: %v", id, gen, sh.name, err))
+				continue
+			}
+			got, err := sh.dec(gob.NewDecoder(&buf))
+			if err != nil || got != e {
+				msgs = append(msgs, fmt.Sprintf("encoding/gob round trip of (%d,%d) as %s gives %v (err %v)", id, gen, sh.name, got, err))
 			}
 		}
 		bin, err := e.MarshalBinary()
